@@ -3,10 +3,10 @@ import operator as op
 
 import numpy as np
 
-from regions.core.attributes import RegionType
+from regions.core.attributes import (RegionMetaDescr, RegionType,
+                                     RegionVisualDescr)
 from regions.core.core import PixelRegion, SkyRegion
 from regions.core.mask import RegionMask
-from regions.core.metadata import RegionMeta, RegionVisual
 
 __all__ = ['CompoundPixelRegion', 'CompoundSkyRegion']
 
@@ -35,6 +35,8 @@ class CompoundPixelRegion(PixelRegion):
     _mpl_artist = 'Patch'
     region1 = RegionType('region1', PixelRegion)
     region2 = RegionType('region2', PixelRegion)
+    meta = RegionMetaDescr('The meta attributes as a |RegionMeta|')
+    visual = RegionVisualDescr('The visual attributes as a |RegionVisual|.')
 
     def __init__(self, region1, region2, operator, meta=None, visual=None):
         if not callable(operator):
@@ -217,6 +219,8 @@ class CompoundSkyRegion(SkyRegion):
     _params = ('region1', 'region2', 'operator')
     region1 = RegionType('region1', SkyRegion)
     region2 = RegionType('region2', SkyRegion)
+    meta = RegionMetaDescr('The meta attributes as a |RegionMeta|')
+    visual = RegionVisualDescr('The visual attributes as a |RegionVisual|.')
 
     def __init__(self, region1, region2, operator, meta=None, visual=None):
         if not callable(operator):
